@@ -204,12 +204,24 @@ impl Conn {
             }
             Ev::Clock(t) => self.clock = tick(*t),
             Ev::Notify(i) => {
-                // LocalPeerService::process_local_event: `if room.has_user(&key) { add_allowed_room(room.id) }`
-                let key = self.key.lock().await.clone();
+                // the REAL handler of local events of a connection (LocalPeerService::process_local_event) with a
+                // detached service handle: the rooms it grants are then added to the connection as the service task does
                 if let Some(room) = &v.rooms[*i].room_obj {
-                    if room.has_user(&key) {
-                        self.handle.allowed_room.insert(room.id);
+                    let (svc, mut granted) = InboundQueryService::verif_detached();
+                    let (etx, mut erx) = mpsc::channel::<discret::verif::synchronisation::RemoteEvent>(16);
+                    discret::verif::synchronisation::peer_inbound_service::LocalPeerService::verif_process_local_event(
+                        discret::verif::synchronisation::LocalEvent::RoomDefinitionChanged(Arc::new(room.clone())),
+                        &self.key,
+                        &etx,
+                        &HashSet::new(),
+                        &svc,
+                    )
+                    .await
+                    .map_err(|e| e.to_string())?;
+                    while let Ok(uid) = granted.try_recv() {
+                        self.handle.allowed_room.insert(uid);
                     }
+                    while erx.try_recv().is_ok() {}
                 }
             }
         }
